@@ -315,6 +315,28 @@ pub fn c16() -> Result<u64, String> {
         block_on(block_on(PMTiles::from_async_reader(futures::io::Cursor::new(a.clone()))).map_err(|e| e.to_string())?.to_async_writer(&mut out)).map_err(|e| e.to_string())?;
         if c == Compression::None && out.into_inner() != a { return Err("async rewrite differs from sync bytes (no codec involved)".into()); }
     }
+    // memory vs backing placement: open, add a tile duplicating a backing tile's content, save; compare with the same content built in one go
+    for round in 0..40 { n += 1;
+        let tiles = gen_tiles(&mut r, 2 + round % 6, 2); let c = COMPS[round % 4];
+        let base = write_at(build(&tiles, c, &Default::default()), 0).map_err(|e| e.to_string())?.0;
+        let mut pm = PMTiles::from_bytes(base).map_err(|e| e.to_string())?;
+        let ids: Vec<u64> = tiles.keys().copied().collect();
+        let src = ids[round % ids.len()]; let dst = if round % 2 == 0 { ids.last().unwrap() + 1 } else { ids.last().unwrap() + 7 };
+        pm.add_tile(dst, tiles[&src].clone()).unwrap();
+        let a = write_at(pm, 0).map_err(|e| e.to_string())?.0;
+        let mut all = tiles.clone(); all.insert(dst, tiles[&src].clone());
+        let b = write_at(build(&all, c, &Default::default()), 0).map_err(|e| e.to_string())?.0;
+        if a != b { return Err(format!("an archive opened from bytes plus one in-memory tile {dst} duplicating backing tile {src} serialises to {} bytes, the same content built in memory to {} bytes ({c:?})", a.len(), b.len())); }
+    }
+    {
+        let base = write_at(build(&gen_tiles(&mut r, 3, 2), Compression::None, &Default::default()), 0).map_err(|e| e.to_string())?.0;
+        for k in 0..3000u32 { n += 1;
+            let v: i32 = if k < 1000 { k as i32 * 7 + 1 } else { r.next() as i32 };
+            let mut a = base.clone(); a[102..106].copy_from_slice(&v.to_le_bytes()); a[123..127].copy_from_slice(&v.wrapping_neg().to_le_bytes());
+            let b = write_at(PMTiles::from_bytes(a.clone()).map_err(|e| e.to_string())?, 0).map_err(|e| e.to_string())?.0;
+            if a != b { return Err(format!("an archive whose stored longitude is {v} is rewritten with stored value {} after being read back", i32::from_le_bytes(b[102..106].try_into().unwrap()))); }
+        }
+    }
     // coordinates: rewrite idempotence over stored values
     for v in [21i32, -21, 1, i32::MAX, i32::MIN, 1_800_000_001, -1_799_999_999, 123_456_789] { n += 1;
         let mut pm = PMTiles::new(TileType::Png, Compression::None); pm.internal_compression = Compression::None;
@@ -342,6 +364,17 @@ pub fn c01_c02_c18() -> Result<u64, String> {
     let mut cases: Vec<(Model, Compression, u64)> = Vec::new();
     for round in 0..48 { cases.push((gen_tiles(&mut r, [0, 1, 2, 5, 9, 40][round % 6], 1 << (round % 30)), COMPS[round % 4], [0u64, 1, 10, 127, 4096, 77][round % 6])); }
     cases.push((big_tiles(6000), Compression::None, 0)); cases.push((big_tiles(4080), Compression::None, 24)); cases.push((big_tiles(30000), Compression::GZip, 3));
+    {   // a pre-filled stream that is LONGER than P + archive: the writer must leave the position at the archive's end
+        let tiles = gen_tiles(&mut r, 4, 2);
+        for p in [0u64, 10] { n += 1;
+            let (arch, _) = write_at(build(&tiles, Compression::None, &Default::default()), 0).map_err(|e| e.to_string())?;
+            let mut out = Cursor::new(vec![0x77u8; p as usize + arch.len() + 500]); out.seek(SeekFrom::Start(p)).unwrap();
+            build(&tiles, Compression::None, &Default::default()).to_writer(&mut out).map_err(|e| e.to_string())?;
+            if out.position() != p + arch.len() as u64 { return Err(format!("writing at P={p} into a pre-filled stream of {} bytes leaves the position at {}, the archive ends at {}", p as usize + arch.len() + 500, out.position(), p + arch.len() as u64)); }
+            let buf = out.into_inner(); if buf[p as usize..p as usize + arch.len()] != arch[..] { return Err(format!("archive written at P={p} into a pre-filled stream differs from the archive written into an empty stream")); }
+            if buf[p as usize + arch.len()..].iter().any(|&x| x != 0x77) || buf[..p as usize].iter().any(|&x| x != 0x77) { return Err("bytes outside [P, P+len) of a pre-filled stream were modified".into()); }
+        }
+    }
     for (tiles, c, p) in cases { n += 1;
         let mut meta = serde_json::Map::new(); meta.insert("k".into(), serde_json::json!({"n": [1, 2, {"x": null}]}));
         let mut pm = build(&tiles, c, &meta);
@@ -569,8 +602,17 @@ pub fn c15() -> Result<u64, String> {
         // opening + lookups
         let mut s = FaultyStream::with_bytes(full.clone(), usize::MAX); { let mut pm = PMTiles::from_reader(&mut s).map_err(|e| e.to_string())?; for id in tiles.keys().take(3) { pm.get_tile_by_id(*id).map_err(|e| e.to_string())?; } } let ops = s.ops();
         for f in 0..ops { n += 1; let mut s = FaultyStream::with_bytes(full.clone(), f);
-            let res = quiet(|| -> std::io::Result<()> { let mut pm = PMTiles::from_reader(&mut s)?; for id in tiles.keys().take(3) { if pm.get_tile_by_id(*id)?.is_none() { return Err(std::io::Error::other("missing")); } } Ok(()) });
-            match res { Ok(Err(_)) => {}, Ok(Ok(())) => return Err(format!("open+lookups returned Ok although the stream fails from operation {f} of {ops} ({c:?})")), Err(p) => return Err(format!("open panicked on a fault at operation {f}: {p}")) } }
+            let res = quiet(|| -> std::io::Result<String> { let mut pm = PMTiles::from_reader(&mut s)?;
+                if pm.num_tiles() != tiles.len() { return Ok(format!("open reported success with {} of {} tiles", pm.num_tiles(), tiles.len())); }
+                for id in tiles.keys().take(3) { if pm.get_tile_by_id(*id)?.is_none() { return Ok(format!("lookup of existing tile {id} reported 'no such tile'")); } } Ok(String::new()) });
+            match res { Ok(Err(_)) => {}, Ok(Ok(m)) => return Err(format!("open+lookups returned Ok although the stream fails from operation {f} of {ops} ({c:?}, {} tiles) {m}", tiles.len())), Err(p) => return Err(format!("open panicked on a fault at operation {f}: {p}")) } }
+        // re-write of an opened archive while the SOURCE stream fails
+        let mut s = FaultyStream::with_bytes(full.clone(), usize::MAX); { let pm = PMTiles::from_reader(&mut s).map_err(|e| e.to_string())?; pm.to_writer(&mut Cursor::new(Vec::new())).map_err(|e| e.to_string())?; } let ops = s.ops();
+        for f in 0..ops { n += 1; let mut s = FaultyStream::with_bytes(full.clone(), f);
+            let res = quiet(|| -> std::io::Result<Vec<u8>> { let pm = PMTiles::from_reader(&mut s)?; let mut o = Cursor::new(Vec::new()); pm.to_writer(&mut o)?; Ok(o.into_inner()) });
+            match res { Ok(Err(_)) => {}, Ok(Ok(b)) => { let ok = PMTiles::from_bytes(b).map(|p| p.num_tiles() == tiles.len()).unwrap_or(false);
+                    return Err(format!("re-writing an opened archive returned Ok although its source stream fails from operation {f} of {ops} ({c:?}); rewritten archive complete: {ok}")) },
+                Err(p) => return Err(format!("rewrite panicked on a fault at operation {f}: {p}")) } }
         // directory and header alone
         let es = to_entries(&gen_dir(&mut r, 5, false)); let d = Directory::from(es);
         let mut s = FaultyStream::new(usize::MAX); d.to_writer(&mut s, c).unwrap(); let ops = s.ops();
@@ -641,8 +683,29 @@ pub fn c12() -> Result<u64, String> {
             let mut ids: Vec<u64> = a.tile_ids().into_iter().copied().collect(); ids.sort_unstable(); if ids != tiles.keys().copied().collect::<Vec<_>>() { return Err(format!("async open of {name} ({c:?}) sees other tile ids")); }
             for (k, v) in tiles.iter().take(40) { if block_on(a.get_tile_by_id_async(*k)).map_err(|e| e.to_string())?.as_ref() != Some(v) { return Err(format!("async lookup of tile {k} in {name} differs ({c:?})")); } }
             let lo = *tiles.keys().nth(tiles.len() / 3).unwrap();
-            let pa = block_on(PMTiles::from_async_reader_partially(futures::io::Cursor::new(b.clone()), lo..)).map_err(|e| e.to_string())?; let ps = PMTiles::from_bytes_partially(b.clone(), lo..).map_err(|e| e.to_string())?;
-            if pa.num_tiles() != ps.num_tiles() { return Err(format!("range-filtered async open sees {} tiles, sync {}", pa.num_tiles(), ps.num_tiles())); }
+            use std::ops::Bound::*;
+            let first = *tiles.keys().next().unwrap();
+            for rg in [(Included(lo), Unbounded), (Unbounded, Excluded(0u64)), (Included(0), Excluded(0)), (Unbounded, Included(0)), (Unbounded, Excluded(first)), (Unbounded, Included(first)),
+                       (Excluded(first), Unbounded), (Included(first), Excluded(first + 1)), (Excluded(lo), Included(u64::MAX)), (Included(5), Included(3))] {
+                if tiles.len() > 100 && !matches!(rg.0, Included(_)) { continue; }
+                let pa = block_on(PMTiles::from_async_reader_partially(futures::io::Cursor::new(b.clone()), rg)).map_err(|e| format!("async partial open {rg:?}: {e}"))?;
+                let ps = PMTiles::from_bytes_partially(b.clone(), rg).map_err(|e| format!("sync partial open {rg:?}: {e}"))?;
+                let mut ia: Vec<u64> = pa.tile_ids().into_iter().copied().collect(); ia.sort_unstable();
+                let mut is: Vec<u64> = ps.tile_ids().into_iter().copied().collect(); is.sort_unstable();
+                if ia != is { return Err(format!("range-filtered open with {rg:?} of an archive holding tiles {:?}..: async reader yields ids {:?}, sync reader {:?} ({c:?})", tiles.keys().take(4).collect::<Vec<_>>(), &ia[..ia.len().min(6)], &is[..is.len().min(6)])); }
+            }
+        }
+    }
+    for (z, x, y) in [(31u8, 0u64, 0u64), (31, (1 << 31) - 1, 5), (30, 7, 7), (0, 0, 0), (1, 1, 1), (12, 3423, 1763)] { n += 1;
+        let id = util::tile_id(z, x, y);
+        let mut pm = PMTiles::new(TileType::Png, Compression::None); pm.internal_compression = Compression::None; pm.add_tile(id, vec![z, 1, 2]).unwrap();
+        let (b, _) = write_at(pm, 0).map_err(|e| e.to_string())?;
+        let mut s = PMTiles::from_bytes(b.clone()).map_err(|e| e.to_string())?;
+        let mut a = block_on(PMTiles::from_async_reader(futures::io::Cursor::new(b.clone()))).map_err(|e| e.to_string())?;
+        for (qx, qy, qz) in [(x, y, z), (x + 1, y, z), (x, y, z.wrapping_add(1)), (0, 0, 32), (x, y, 200)] {
+            let rs = quiet(|| s.get_tile(qx, qy, qz)).map_err(|p| format!("sync get_tile({qx},{qy},{qz}) panicked: {p}"))?.map_err(|e| e.to_string());
+            let ra = quiet(|| block_on(a.get_tile_async(qx, qy, qz))).map_err(|p| format!("async get_tile({qx},{qy},{qz}) panicked: {p}"))?.map_err(|e| e.to_string());
+            if rs != ra { return Err(format!("get_tile(x={qx}, y={qy}, z={qz}) on an archive holding tile {z}/{x}/{y}: sync returns {rs:?}, async returns {ra:?}")); }
         }
     }
     Ok(n)
@@ -667,6 +730,19 @@ pub fn c20() -> Result<u64, String> {
             let (o, l) = p.tiles[id]; let (ws, we) = (h.data_off + o, h.data_off + o + l as u64);
             let lg = log.borrow(); let lo = lg.iter().map(|x| x.0).min(); let hi = lg.iter().map(|x| x.1).max();
             if lo != Some(ws) || hi != Some(we) { return Err(format!("lookup of tile {id} read bytes {lo:?}..{hi:?}, its range is {ws}..{we}")); } }
+    }
+    {
+        let mut tiles: Model = BTreeMap::new();
+        tiles.insert(1, (0..1_100_000u32).map(|i| (i % 251) as u8).collect()); tiles.insert(2, vec![5u8; 70_000]); tiles.insert(3, vec![9u8; 300]);
+        let b = write_at(build(&tiles, Compression::None, &Default::default()), 0).map_err(|e| e.to_string())?.0;
+        let p = parse_archive(&b)?; let h = &p.hdr;
+        let log = std::rc::Rc::new(std::cell::RefCell::new(Vec::new()));
+        let mut pm = PMTiles::from_reader(Spy { inner: Cursor::new(b.clone()), touched: log.clone() }).map_err(|e| e.to_string())?;
+        for id in [1u64, 2, 3] { n += 1; log.borrow_mut().clear(); let got = pm.get_tile_by_id(id).map_err(|e| e.to_string())?;
+            if got.as_ref() != tiles.get(&id) { return Err(format!("large tile {id} read back differs")); }
+            let (o, l) = p.tiles[&id]; let (ws, we) = (h.data_off + o, h.data_off + o + l as u64);
+            let lg = log.borrow(); let lo = lg.iter().map(|x| x.0).min(); let hi = lg.iter().map(|x| x.1).max();
+            if lo != Some(ws) || hi != Some(we) { return Err(format!("lookup of tile {id} ({l} bytes) read bytes {lo:?}..{hi:?}, its range is {ws}..{we}")); } }
     }
     Ok(n)
 }
